@@ -968,7 +968,7 @@ def api_sweep(seed, thorough, only=None, cfg_filter=None):
             out_f += f_
             out_obs += obs_
         return out_f, None, out_obs
-    nsalts = int(os.environ.get("VERIF_C19_API_SEEDS", "24" if thorough else "6"))
+    nsalts = int(os.environ.get("VERIF_C19_API_SEEDS", "48" if thorough else "16"))
     for f, infra, obs in pmap(one, jobs):
         if infra:
             return {"failures": failures, "infra": infra, "stats": {}}
